@@ -239,9 +239,10 @@ def always_nonzero(P, name, caller=None, _depth=0):
 # --------------------------------------------------------------------------
 
 class XGraph(object):
-    def __init__(self, P, fn, track_paths=(), interpret=True, keep_calls=()):
+    def __init__(self, P, fn, track_paths=(), interpret=True, keep_calls=(), keep_vars=()):
         self.P = P
         self.fn = fn
+        self.keep_vars = set(keep_vars)
         self.track_paths = set(track_paths)
         self.interpret = interpret
         self.keep_calls = set(keep_calls)
@@ -342,7 +343,7 @@ class XGraph(object):
     def _prune(self, st, bid):
         live = self.live[bid]
         return frozenset(f for f in st
-                         if (f[0] in ("z", "nz", "p") and (f[1] in live or f[1] in self.track_paths)
+                         if (f[0] in ("z", "nz", "p") and (f[1] in live or f[1] in self.track_paths or f[1] in self.keep_vars)
                              and (f[0] != "p" or f[2] in self.keep_ids))
                          or (f[0] in ("cz", "cnz") and f[1] in self.keep_ids))
 
@@ -764,11 +765,11 @@ class XGraph(object):
 _xg_cache = {}
 
 
-def xgraph(P, fn, track_paths=(), interpret=True, keep_calls=()):
+def xgraph(P, fn, track_paths=(), interpret=True, keep_calls=(), keep_vars=()):
     k = (id(P), fn.file, fn.line, fn.name, tuple(sorted(track_paths)), interpret,
-         tuple(sorted(keep_calls)))
+         tuple(sorted(keep_calls)), tuple(sorted(keep_vars)))
     g = _xg_cache.get(k)
     if g is None:
-        g = XGraph(P, fn, track_paths, interpret, keep_calls)
+        g = XGraph(P, fn, track_paths, interpret, keep_calls, keep_vars)
         _xg_cache[k] = g
     return g
